@@ -10,11 +10,13 @@ A scenario is plain data (replayable):
               {"mode": "disconnect", "after": nbytes, "how": "close"|"reset"|"shutdown_wr"}}]}
   req = {"m": "GET", "v": "1.1", "n": payload bytes, "k": kind, "body": request body bytes,
          "chunked_req": bool, "expect": bool, "close": bool, "keepalive": bool, "w": chunk size,
+         "lead": stray empty line(s) sent in front of the request line (RFC 9112 2.2),
          "gate": True (runs on when its own client opens the gate) | "peer" (runs on once a request
          of another connection has been executed)}
   kinds: "cl" (Content-Length, one chunk), "chunks" (Content-Length, chunks of w bytes),
          "write" (write() callable, Content-Length), "gen" (generator, Content-Length),
-         "fw" (wsgi.file_wrapper), "nocl" (generator without Content-Length),
+         "fw" (wsgi.file_wrapper), "fwoff" (wsgi.file_wrapper over a file of the operating system that is
+         read from an offset; no Content-Length of the application's), "nocl" (generator without Content-Length),
          "raise0" (exception before output), "raise1" (exception after first chunk),
          "short" (declares n bytes, produces n-3), "short0" (declares n bytes, produces none)
 """
@@ -60,7 +62,7 @@ def request_bytes(cid, idx, req):
         lines.append("Connection: close")
     elif req.get("keepalive"):
         lines.append("Connection: keep-alive")
-    head = ("\r\n".join(lines) + "\r\n\r\n").encode()
+    head = (req.get("lead", "") + "\r\n".join(lines) + "\r\n\r\n").encode()
     return head, body
 
 
@@ -140,6 +142,15 @@ def make_app(world, log, hooks=None):
             if k == "fw":
                 start_response("200 OK", hdrs)
                 return environ["wsgi.file_wrapper"](io.BytesIO(payload))
+            if k == "fwoff":
+                import tempfile
+
+                f = tempfile.TemporaryFile()
+                f.write(b"#" * 37 + payload)
+                f.flush()
+                f.seek(37)
+                start_response("200 OK", hdrs)
+                return environ["wsgi.file_wrapper"](f)
             if k == "stream":
                 # write everything, then wait until the client has really
                 # received it (a streaming application that depends on its
